@@ -7,17 +7,10 @@ NOTE = ("Trusted: Coq 8.16.1 kernel + VM (vm_compute), no axioms (Print Assumpti
         "ExtrOcamlBasic extraction + ocaml/driver.ml (cross-checked per run against vm_compute on a sample), the harness "
         "(generators/drivers/comparator, canary-guarded). The model is hand-written; it is tied to /repo by the correspondence run "
         "(model vs implementation on the same generated and enumerated inputs), which is sampling + bounded enumeration. ")
-CHECKS = {
- 'C17': dict(
-    text="Proof (full for the model): like = SQL LIKE on single-line texts for every text and pattern, metacharacters literal, cache coherent "
-         "(Props/C17.v, axiom-free), for the Python and the JS flavour of the matcher. Tie to the code: `select like(a1,a2)` through "
-         "rbql.query_table (Python) and rbql-js query_table (node) on exhaustive short pairs over the 14-letter metacharacter alphabet, "
-         "structured random and Unicode pairs, every result compared with the proved model.",
-    note="Python re / V8 RegExp are not modelled: the regex emitted by like_to_regex is represented by its token list and a backtracking matcher; "
-         "re.escape / regexp_escape are assumed to make a literal run match exactly itself (validated by the correspondence run over all metacharacters).",
-    technique="Coq proof (induction on the pattern) of matcher = inductive SQL-LIKE relation + differential correspondence run of the extracted model against rbql-py and rbql-js",
-    ref="DESIGN.md section 4, C17"),
-}
+CHECKS = {}
+for fn in sorted(os.listdir(os.path.join(HERE, 'harness', 'manifest'))):
+    if fn.endswith('.json'):
+        CHECKS[fn[:-5]] = json.load(open(os.path.join(HERE, 'harness', 'manifest', fn)))
 REASON_PENDING = "not claimed yet: model and correspondence check under construction in this build phase (see DESIGN.md section 10 for the order)"
 def main():
     ids = ['C%02d' % i for i in range(1, 21)]
